@@ -31,7 +31,10 @@ Proof.
 Qed.
 
 Lemma good_empty : good raw_empty.
-Proof. split; [exists []; apply rep_empty|reflexivity|reflexivity|cbn; lia|cbn; lia]. Qed.
+Proof.
+  split; [exists []; apply rep_empty|reflexivity|reflexivity| |];
+    unfold MAX_SNAPSHOT_ITEMS, MAX_SNAPSHOT_SIZE, ser_size; cbn; lia.
+Qed.
 
 Lemma forallb_sins k l : is_i32 k = true -> forallb is_i32 l = true -> forallb is_i32 (sins k l) = true.
 Proof.
@@ -106,12 +109,12 @@ Lemma rfi_item_good idata il prev off S : good S -> forallb is_i32 idata = true 
   match rfi_item idata il prev off S with Ok S' => good S' | Err _ => True | _ => False end.
 Proof.
   intros G Hi Hl Hp. unfold rfi_item. destruct prev as [p|].
-  - specialize (Hp p eq_refl). destruct (Z.leb_spec off p); [exact I|]. destruct (Z.ltb_spec il off); [exact I|].
+  - specialize (Hp p eq_refl). destruct (Z.leb_spec off p) as [|Hop]; [exact I|]. destruct (Z.ltb_spec il off) as [|Hio]; [exact I|].
     destruct (nth_error idata (Z.to_nat p)) as [kk|] eqn:Hn.
     + pose proof (add_item_good S (key_to_raw_type_id kk) (key_to_id kk)
         (firstn (Z.to_nat (off - p - 1)) (skipn (Z.to_nat (p + 1)) idata)) G
-        (key_to_ty_range kk) (key_to_id_range kk) (firstn_i32 _ _ (skipn_i32 _ _ Hi))) as H.
-      destruct (add_item _ _ _ _); cbn [lift_b]; exact H.
+        (key_to_ty_range kk) (key_to_id_range kk) (firstn_i32 _ _ (skipn_i32 _ _ Hi))) as Ha.
+      destruct (add_item _ _ _ _); cbn [lift_b]; exact Ha.
     + apply nth_error_None in Hn. lia.
   - destruct (off =? 0); [exact G|exact I].
 Qed.
@@ -129,7 +132,7 @@ Proof.
 Qed.
 
 Theorem read_from_ints_good ints : forallb is_i32 ints = true ->
-  match raw_read_from_ints ints with (Ok S, _) => good S | (Err _, _) => True | _ => False end.
+  match raw_read_from_ints ints with (Ok R, _) => good R | (Err _, _) => True | _ => False end.
 Proof.
   intros Hi. unfold raw_read_from_ints. destruct ints as [|ds [|ni rest]]; try exact I.
   - destruct (ds <? 0); exact I.
@@ -155,8 +158,8 @@ Lemma read_int_shrinks bs v ws rest : bytes_ok bs = true -> read_int bs = Ok (v,
 Proof.
   intros Hok H. rewrite read_int_arith in H by exact Hok.
   destruct (read_int_a_consumes _ _ _ _ H) as (Hs & Hl & Hv). split; [|split; [exact Hv|]].
-  - rewrite Hs at 2. rewrite app_length. lia.
-  - rewrite Hs in Hok. unfold bytes_ok in *. rewrite forallb_app in Hok. apply andb_true_iff in Hok. tauto.
+  - pose proof (f_equal (@length Z) Hs) as Hlen. rewrite app_length in Hlen. lia.
+  - unfold bytes_ok in *. rewrite forallb_forall in *. intros x Hx. apply Hok. rewrite Hs. apply in_or_app. right. exact Hx.
 Qed.
 
 Lemma read_int_fine bs : bytes_ok bs = true -> fine (read_int bs).
@@ -182,7 +185,7 @@ Proof.
 Qed.
 
 Theorem read_bytes_good bs : bytes_ok bs = true ->
-  match raw_read_bytes bs with (Ok S, _) => good S | (Err _, _) => True | _ => False end.
+  match raw_read_bytes bs with (Ok R, _) => good R | (Err _, _) => True | _ => False end.
 Proof.
   intros Hok. unfold raw_read_bytes.
   destruct (bytes_to_ints_ok (length bs) bs [] [] Hok (le_n _) eq_refl) as (ints & ws & E & Hi).
